@@ -23,7 +23,10 @@
 
    Thread 0 is the consumer, thread i+1 is producer i.  A dead producer is a thread the
    schedule never names again.  Definitions only. *)
-Require Import V.Base.MachineInt V.Generated.GenConsts V.Model.LogBase V.Model.Ring.
+Require Import V.Base.MachineInt.
+Require Import V.Generated.GenConsts.
+Require Import V.Model.LogBase.
+Require Import V.Model.Ring.
 Open Scope Z_scope.
 
 Inductive akind := GetVolatile | PutOrdered | CompareAndSetI64 | CopyFrom | SetMemory | RegionRead | GetAndAddI64.
